@@ -117,3 +117,93 @@ Theorem C10_structural_oracle_sound :
   forall ls s tr, run init ls = Some (s, tr) ->
   Check.oracle_struct (prepared tr) (OracleSound.plog tr) = true.
 Proof. exact OracleSound.oracle_struct_sound. Qed.
+
+(* ------------------------------------------------------------------------------------------------
+   Second part: the producers of the event channel (internal/framework/controller/reconciler.go)
+   composed with the loop.  C10/Feed.v: [reconcile] is Reconciler.Reconcile as a function; [frun] runs
+   the composition of any number of reconcilers (one worker each), the store they read, a heap of
+   event objects and the loop model above, for an arbitrary label sequence (store writes, Reconcile
+   calls with or without a failing Get, the loop taking a blocked send, a send abandoned after
+   cancellation, the preparer, every loop/handler/context action).  [fl] gives, per reconciler, the
+   names its NamespacedNameFilter rejects. *)
+From NGF Require C10.Feed C10.FeedProofs.
+
+(* Reconcile as a function: at most one event per request; none for a filtered name or a failed Get;
+   otherwise an upsert carrying exactly what the store held when Get ran, or a delete carrying the
+   requested name and the reconciler's kind when it held nothing. *)
+Theorem C10_feed_reconcile_spec :
+  forall kind filt st k fault,
+  match Feed.reconcile kind filt st k fault with
+  | None => Feed.fmemb k filt = true \/ fault = true
+  | Some e =>
+      Feed.fmemb k filt = false /\ fault = false /\
+      match Feed.lookup st kind k with
+      | Some m => e = Feed.EUp kind k m
+      | None => e = Feed.EDel kind k
+      end
+  end.
+Proof. exact FeedProofs.reconcile_spec. Qed.
+
+(* The store read by Get is a map (kind, name) -> marker of the last write. *)
+Theorem C10_feed_store_is_a_map :
+  forall st r k v r' k',
+  Feed.lookup (Feed.sput st r k v) r' k' = if andb (Nat.eqb r r') (Nat.eqb k k') then v else Feed.lookup st r' k'.
+Proof. exact FeedProofs.store_is_a_map. Qed.
+
+(* The loop inside the composition is the loop model of the first part: the loop's share of every
+   run of the composition is a run of C10.Model, so every theorem above applies to it. *)
+Theorem C10_feed_loop_part_is_a_model_run :
+  forall fl ls s tr, Feed.frun fl Feed.finit ls = Some (s, tr) ->
+  exists lls, run init lls = Some (Feed.f_loop s, Feed.loop_tr tr).
+Proof. exact FeedProofs.feed_loop_is_model_run. Qed.
+
+(* End to end, exactly once and in order: what the handler read when it was entered, batch after
+   batch, is a prefix of  start-up batch ++ the events of the Reconcile calls in the order they
+   entered the channel. *)
+Theorem C10_feed_exactly_once_in_order :
+  forall fl ls s tr, Feed.frun fl Feed.finit ls = Some (s, tr) ->
+  exists pending, Feed.seen tr ++ pending = Feed.first_batch tr ++ Feed.emitted tr.
+Proof. exact FeedProofs.feed_exactly_once. Qed.
+
+(* ... and all of it whenever the loop is idle (every launched handler goroutine reported done). *)
+Theorem C10_feed_all_handled_when_idle :
+  forall fl ls s tr, Feed.frun fl Feed.finit ls = Some (s, tr) ->
+  returned (Feed.loop_tr tr) = false -> dones (Feed.loop_tr tr) = length (launches (Feed.loop_tr tr)) ->
+  Feed.seen tr = Feed.first_batch tr ++ Feed.emitted tr.
+Proof. exact FeedProofs.feed_idle_all_handled. Qed.
+
+(* Per reconciler, until the context is cancelled: the events that entered the channel, plus the one
+   of a call still blocked in the send (at most one), are exactly what its Reconcile calls owe, in
+   call order: [Feed.owed] is the declarative list (one event per call that passes the filter and whose
+   Get worked, with the store's content at Get time).  After cancellation a blocked send may be
+   abandoned (reconciler.go:117-122): the process is exiting. *)
+Theorem C10_feed_nothing_lost_or_invented_by_the_reconcilers :
+  forall fl ls s tr, Feed.frun fl Feed.finit ls = Some (s, tr) -> cancelled (Feed.f_loop s) = false ->
+  forall r, Feed.emitted_by r tr ++ Feed.pend_of r (Feed.f_pend s) = Feed.owed r fl tr /\
+            length (Feed.pend_of r (Feed.f_pend s)) <= 1.
+Proof. exact FeedProofs.feed_owed. Qed.
+
+(* No step of the composition writes an event object that has entered the channel. *)
+Theorem C10_feed_event_objects_are_never_rewritten :
+  forall fl s l s' evs id, Feed.fstep fl s l = Some (s', evs) -> id < length (Feed.f_heap s) ->
+  Feed.content (Feed.f_heap s') id = Feed.content (Feed.f_heap s) id.
+Proof. exact FeedProofs.fstep_heap_stable. Qed.
+
+(* The aliasing defect in a heap model (an UpsertEvent holds a pointer to the object Get filled).
+   With a fresh object per Reconcile, whatever Reconciles follow, events already emitted read the
+   same, and the handler reads through the pointers it was sent exactly what was sent... *)
+Theorem C10_feed_fresh_object_per_reconcile_is_immutable :
+  forall es h ptrs, Forall (fun p => p < length h) ptrs ->
+  Feed.deref (fst (Feed.reconciles Feed.alloc_fresh h es)) ptrs = Feed.deref h ptrs.
+Proof. exact FeedProofs.fresh_immutable. Qed.
+
+Theorem C10_feed_fresh_object_per_reconcile_reads_back :
+  forall es h,
+  Feed.deref (fst (Feed.reconciles Feed.alloc_fresh h es)) (snd (Feed.reconciles Feed.alloc_fresh h es)) = es.
+Proof. exact FeedProofs.fresh_reads_back. Qed.
+
+(* ... whereas with one object allocated in NewReconciler and reused by every Reconcile it does not:
+   sent [Upsert k1; Upsert k2], the handler reads [Upsert k2; Upsert k2] (FeedProofs.reuse_refuted). *)
+Theorem C10_feed_reused_object_refuted :
+  exists es, let '(h, ps) := Feed.reconciles (Feed.alloc_reuse 0) [Feed.EBad] es in Feed.deref h ps <> es.
+Proof. exact FeedProofs.reuse_breaks_exactly_once. Qed.
